@@ -109,6 +109,9 @@ def sx_expr(e):
         return "(var %s)" % e[1]
     if k == "un":
         return "(un %s %s)" % (e[1], sx_expr(e[2]))
+    if k == "bin" and e[1] == "root":
+        # `die n. Wurzel von x` is the parser's spelling of x hoch (1 durch n)
+        return "(bin pow %s (bin div (int 1) %s))" % (sx_expr(e[3]), sx_expr(e[2]))
     if k == "bin":
         return "(bin %s %s %s)" % (e[1], sx_expr(e[2]), sx_expr(e[3]))
     if k == "ter":
@@ -312,6 +315,8 @@ def _pp(e, m):
             return "%s hoch %s" % (pp_expr(a, m, P_SLICE), pp_expr(b, m, P_UNARY))
         if op == "log":
             return "der Logarithmus von %s zur Basis %s" % (pp_expr(a, m, P_PRIMARY), pp_expr(b, m, P_PRIMARY))
+        if op == "root":
+            return "die %s. Wurzel von %s" % (pp_expr(a, m, P_PRIMARY), pp_expr(b, m, P_PRIMARY))
         if op == "index":
             return "%s an der Stelle %s" % (pp_expr(a, m, P_INDEX), pp_expr(b, m, P_FIELD))
         if op == "sliceTo":
@@ -811,6 +816,8 @@ class Gen:
         if c in (4, 5, 6):
             return ("bin", "div", self.num(d - 1), self.num(d - 1))
         if c == 7 and self.feat("pow"):
+            if r.below(3) == 0:
+                return ("bin", "root", ("int", r.choice([1, 2, 3])), ("un", "abs", self.expr(r.choice(["Z", "K"]), 0)))
             return ("bin", "pow", self.expr(r.choice(["Z", "K", "B"]), 0), ("int", r.choice([0, 1, 2, 3, -1])))
         if c == 8:
             return ("cast", self.expr(r.choice(["Z", "B"]), d - 1), "K")
